@@ -189,6 +189,8 @@ def execute_plan(plan: dict, kdf_limit: int = 300, keep_events: bool = False) ->
                      byz=dcc.get("byz"), gkdi_port=dcc.get("gkdi_port", 49667), lib_codecs=bool(dcc.get("lib_codecs")))
     tr.dc = dc
     world.default_delivery = plan.get("delivery")
+    if plan.get("entropy_device"):
+        world.entropy_device = dict(plan["entropy_device"])  # /dev/urandom opened as a file: "eof" | "short" reads (nothing in the unchanged library opens it)
     cache = dpapi_ng.KeyCache()
     tr.cache = cache
     named_caches: t.Dict[str, t.Any] = {}
@@ -218,6 +220,11 @@ def execute_plan(plan: dict, kdf_limit: int = 300, keep_events: bool = False) ->
         kw = api_kwargs(op, the_cache)
         if op["op"] == "protect":
             pt = data_bytes(op.get("data", 16), i + 1000 * seed) if not op.get("same_data") else data_bytes(op.get("data", 16), 7)
+            if op.get("data_from_op") is not None:
+                # the secret to protect is itself the output of an earlier protect of this history (a value that gets wrapped again)
+                src = tr.ops[op["data_from_op"]].outcome
+                if src is not None and src.kind == "ok" and isinstance(src.value, (bytes, bytearray)):
+                    pt = bytes(src.value)
             ot.plaintext = pt
             rkid = rks[op["rk"]].root_key_id if op.get("rk") is not None else None
             if use_dns:
@@ -238,6 +245,16 @@ def execute_plan(plan: dict, kdf_limit: int = 300, keep_events: bool = False) ->
                     blob = bytes(DPAPINGBlob.unpack(blob).pack(blob_in_envelope=False))
                 elif blob is not None and b.get("relayout"):
                     blob = cms.relayout(blob, in_envelope=False)
+                if blob is not None and b.get("graft"):
+                    # the stored record was altered at rest: named fields are overwritten with those of ANOTHER blob made in this history
+                    from simworld import blobstore
+
+                    other = tr.ops[b["graft"]["from_op"]].outcome
+                    if other is not None and other.kind == "ok":
+                        ob = bytes(other.value)
+                        ooff = cms.parse_blob(ob)["offsets"]
+                        faults = [["field", name, ob[ooff[name][0] : ooff[name][1]].hex()] for name in b["graft"]["fields"] if name in ooff]
+                        blob = blobstore.apply_faults(bytes(blob), faults, cms.parse_blob(bytes(blob))["offsets"])
                 ot.blob_spec = None
             else:
                 blob, pt = make_blob(b, rks, i)
